@@ -131,3 +131,101 @@ pub fn table_for_data(data: &[u8]) -> Option<HufTable> {
     let weights: Vec<u8> = (0..=last).map(|s| if lens[s] == 0 { 0 } else { (max_len + 1 - lens[s]) as u8 }).collect();
     Some(table_from_weights(&weights, max_len))
 }
+
+/// FSE-compressed weight description (RFC 8878 4.2.1.2): header byte = size of what follows (< 128), the table
+/// description for (al, probs) over the weight values, and the weights encoded with two interleaved states.
+/// The last state of each chain is one that reads at least one bit on update, so that every decoder detects the end
+/// of the stream right there.  None when a weight has no state or the result does not fit the header byte.
+pub fn fse_description(explicit: &[u8], al: u8, probs: &[i32]) -> Option<Vec<u8>> {
+    let body = fse_description_body(explicit, al, probs)?;
+    if body.len() >= 128 {
+        return None;
+    }
+    let mut out = vec![body.len() as u8];
+    out.extend(body);
+    Some(out)
+}
+
+/// table description + two-state stream, whatever its size
+pub fn fse_description_body(explicit: &[u8], al: u8, probs: &[i32]) -> Option<Vec<u8>> {
+    use crate::fsecodec::{build_table, write_description};
+    if explicit.len() < 2 {
+        return None;
+    }
+    let t = build_table(al, probs);
+    let chain = |syms: &[u8]| -> Option<Vec<usize>> {
+        let n = syms.len();
+        let mut st = vec![0usize; n];
+        st[n - 1] = (0..t.sym.len()).find(|&s| t.sym[s] == syms[n - 1] && t.nb[s] > 0)?;
+        for i in (0..n - 1).rev() {
+            let next = st[i + 1] as u32;
+            st[i] = (0..t.sym.len()).find(|&s| t.sym[s] == syms[i] && next >= t.base[s] && next < t.base[s] + (1u32 << t.nb[s]))?;
+        }
+        Some(st)
+    };
+    let ev: Vec<u8> = explicit.iter().step_by(2).cloned().collect();
+    let od: Vec<u8> = explicit.iter().skip(1).step_by(2).cloned().collect();
+    let (a, b) = (chain(&ev)?, chain(&od)?);
+    // bits in the order the decoder reads them
+    let mut r: Vec<(u64, u32)> = vec![(a[0] as u64, al as u32), (b[0] as u64, al as u32)];
+    for i in 0..explicit.len() {
+        let (c, j) = if i % 2 == 0 { (&a, i / 2) } else { (&b, i / 2) };
+        if j + 1 < c.len() {
+            let cur = c[j];
+            r.push(((c[j + 1] as u32 - t.base[cur]) as u64, t.nb[cur] as u32));
+        }
+    }
+    let mut w = BitW::new();
+    for (v, nb) in r.iter().rev() {
+        w.put(*v, *nb);
+    }
+    let stream = w.finish_with_mark();
+    let mut body = write_description(al, probs);
+    body.extend(stream);
+    Some(body)
+}
+
+/// A normalised distribution (sum 2^al, every used value >= 1, nothing above half the table) over the weight values
+/// 0..=max: the histogram of `explicit` blended with a flat one (`flat` in 0..=100 percent).
+pub fn weight_distribution(explicit: &[u8], al: u8, flat: u32) -> Vec<i32> {
+    let maxw = *explicit.iter().max().unwrap() as usize;
+    let size = 1i64 << al;
+    let mut cnt = vec![0i64; maxw + 1];
+    for w in explicit {
+        cnt[*w as usize] += 1;
+    }
+    let total: i64 = explicit.len() as i64;
+    let k = (maxw + 1) as i64;
+    let mut p: Vec<i64> = (0..=maxw).map(|v| {
+        if flat <= 100 {
+            let fitted = cnt[v] * size * (100 - flat as i64);
+            let flatp = total * size * flat as i64 / k;
+            let x = (fitted + flatp) / (100 * total);
+            if cnt[v] > 0 { x.max(1) } else { x }
+        } else {
+            // beyond flat: towards the inverted histogram (frequent values get the smallest probabilities)
+            let inv = (flat as i64 - 100).min(100);
+            let invp = (total - cnt[v]) * size / ((k - 1).max(1) * total);
+            let x = ((size / k) * (100 - inv) + invp * inv) / 100;
+            if cnt[v] > 0 { x.max(1) } else { x }
+        }
+    }).collect();
+    for x in p.iter_mut() {
+        *x = (*x).min(size / 2);
+    }
+    loop {
+        let sum: i64 = p.iter().sum();
+        if sum == size {
+            break;
+        }
+        if sum < size {
+            // give to the most frequent value that can still take it, else to any value below the cap
+            let i = (0..=maxw).filter(|v| p[*v] < size / 2).max_by_key(|v| (cnt[*v], std::cmp::Reverse(*v))).unwrap();
+            p[i] += 1;
+        } else {
+            let i = (0..=maxw).filter(|v| p[*v] > 1 || (cnt[*v] == 0 && p[*v] > 0)).max_by_key(|v| p[*v]).unwrap();
+            p[i] -= 1;
+        }
+    }
+    p.iter().map(|x| *x as i32).collect()
+}
